@@ -209,18 +209,41 @@ def theorem_names(props_file):
 FORBIDDEN = re.compile(r'\b(Admitted|admit|Axiom|Parameter|Conjecture|Admit Obligations)\b|Unset Guard|bypass_check|type-in-type|impredicative-set')
 
 
-def grep_forbidden():
+def cone_files(props_file):
+    """transitive `From BV Require …` closure of a Props file (paths relative to coq/)"""
+    seen, todo = [], [props_file]
+    while todo:
+        f = todo.pop()
+        if f in seen or not os.path.exists(os.path.join(COQ, f)):
+            continue
+        seen.append(f)
+        text = open(os.path.join(COQ, f)).read()
+        text = re.sub(r'\(\*.*?\*\)', '', text, flags=re.S)
+        for m in re.finditer(r'From\s+BV\s+Require\s+(?:Import\s+|Export\s+)?([A-Za-z0-9_.\s]+?)\.(?=\s|$)', text):
+            for mod in m.group(1).split():
+                todo.append(mod.replace('.', '/') + '.v')
+        for m in re.finditer(r'(?<!BV )Require\s+(?:Import\s+|Export\s+)?((?:BV\.[A-Za-z0-9_.]+?\s*)+)\.(?=\s|$)', text):
+            for mod in m.group(1).split():
+                todo.append(mod[3:].replace('.', '/') + '.v')
+    return seen
+
+
+def grep_forbidden(props_file=None):
     bad = []
-    for root, _, files in os.walk(COQ):
+    files = cone_files(props_file) if props_file else None
+    for root, _, fs in os.walk(COQ):
         if '/Cases' in root:
             continue
-        for f in files:
+        for f in fs:
             if f.endswith('.v'):
                 p = os.path.join(root, f)
+                rel = os.path.relpath(p, COQ)
+                if files is not None and rel not in files:
+                    continue
                 text = open(p).read()
                 text = re.sub(r'\(\*.*?\*\)', '', text, flags=re.S)
                 for m in FORBIDDEN.finditer(text):
-                    bad.append('%s: %s' % (os.path.relpath(p, COQ), m.group(0)))
+                    bad.append('%s: %s' % (rel, m.group(0)))
     return bad
 
 
@@ -388,7 +411,8 @@ class Result:
             return self._proof_step(props_file, extra_targets, kernels_needed, trans)
 
     def _proof_step(self, props_file, extra_targets, kernels_needed, trans):
-        bad = grep_forbidden()
+        bad = grep_forbidden(props_file)
+        self.cov['cone_files'] = sorted(cone_files(props_file))
         if bad:
             self.broken.append(dict(kind='forbidden', name='forbidden construct', detail='; '.join(bad)))
         for k in kernels_needed:
